@@ -35,7 +35,7 @@ WRITE_FCS = (5, 6, 15, 16, 22, 23)
 INERT = [b for b in range(256) if b not in WRITE_FCS]
 
 
-def gen_hostile(rng, framer, units, single):
+def gen_hostile(rng, framer, units, single, other_pdus=None):
     hosted = [u for u, _ in units]
     uid_pool = hosted + hosted + [0, 255, rng.randrange(256)]
     chunks, kinds = [], []
@@ -58,7 +58,7 @@ def gen_hostile(rng, framer, units, single):
         elif kind == 'valid-write':
             c = serverlib.frame_pdu(framer, gpdu, uid, tid)
         elif kind == 'valid-other':
-            c = serverlib.frame_pdu(framer, rng.choice(OTHER_PDUS), uid, tid)
+            c = serverlib.frame_pdu(framer, rng.choice(other_pdus or OTHER_PDUS), uid, tid)
         elif kind == 'trunc-pdu':
             c = serverlib.frame_pdu(framer, gpdu[:rng.randrange(0, len(gpdu))], uid, tid)
         elif kind == 'long-pdu':
@@ -84,7 +84,10 @@ def gen_hostile(rng, framer, units, single):
             c = serverlib.frame_pdu(framer, rng.choice(UNKNOWN_SUB), uid, tid)
         if framer == 'binary' and kind in ('valid-write', 'valid-other') and any(b in (0x7B, 0x7D) for b in c[1:-1]):
             kind = 'binary-delims'
-        if rng.random() < 0.2 and len(c) > 1:
+        if rng.random() < 0.15 and chunks and len(chunks[-1]) + len(c) < 600:
+            chunks[-1] = chunks[-1] + c          # several frames (good and bad) in one read / datagram
+            kinds[-1] = kinds[-1] + '+' + kind
+        elif rng.random() < 0.2 and len(c) > 1:
             k = rng.randrange(1, len(c))
             chunks += [c[:k], c[k:]]
             kinds += [kind + ':split', kind + ':split']
@@ -135,16 +138,20 @@ def gen_case(rng, frontend=None):
 
 
 def check(ctx, rep, cases):
-    res = serverlib.run_both(ctx, cases)
-    for c, (real, a) in zip(cases, res):
+    ans = ctx.driver.query([serverlib.model_query(**c) for c in cases])
+    for c, a in zip(cases, ans):
+        real, before, per_step = serverlib.run_real_steps(c)
         outs, escs, dumps, alive = real
         case = {k: c[k] for k in ('frontend', 'framer', 'single', 'units', 'ignore_missing', 'broadcast', 'schedule', 'kinds', 'probe', 'inert_only')}
         case['kind'] = 'hostile'
         kinds = c['kinds']
         rep.case((c['frontend'], c['framer'], str(c['schedule']), str(c['units']), c['ignore_missing'], c['broadcast'], c['single']),
-                 nontrivial=any(not k.startswith('valid') for k in kinds), tag='%s:%s' % (c['frontend'], c['framer']))
+                 nontrivial=any(not k.startswith('valid') or '+' in k for k in kinds), tag='%s:%s' % (c['frontend'], c['framer']))
         for k in kinds:
-            rep.hist['kind:' + k] += 1
+            for kk in k.split('+'):
+                rep.hist['kind:' + kk] += 1
+            if '+' in k:
+                rep.hist['several-frames-in-one-read'] += 1
         for call in a['calls'][:len(kinds)]:
             if call.get('opaque'):
                 rep.hist['opaque-request-executed'] += 1
@@ -159,12 +166,23 @@ def check(ctx, rep, cases):
             continue
         # (b)
         serverlib.compare(rep, case, real, a, 'hostile history vs Server.connStep')
-        if c['inert_only']:
-            s0 = frontends.Session(c['frontend'], c['framer'], c['single'], c['units'], c['ignore_missing'], c['broadcast'])
-            before = s0.dumps()
-            s0.close()
-            if dumps != before:
-                rep.violation('bytes that contain no write function code changed the datastore', case)
+        if c['inert_only'] and dumps != before:
+            rep.violation('bytes that contain no write function code changed the datastore', case)
+            continue
+        # a read that is answered with exception responses only, or not at all, prescribes no change (broadcast off:
+        # every executed request is answered)
+        if not c['broadcast']:
+            prev, bad = before, False
+            for i, (o, now) in enumerate(zip(outs, per_step)):
+                if now != prev:
+                    fcs = [serverlib.frame_fc(c['framer'], f) for f in o]
+                    if all(fc is not None and fc >= 0x80 for fc in fcs):
+                        rep.violation('the datastore changed in a step whose requests were all rejected (exception responses only) or not '
+                                      'answered at all', case, index=i, written=o, chunk=c['schedule'][i][1][:80])
+                        bad = True
+                        break
+                prev = now
+            if bad:
                 continue
         # (c)
         p = c['probe']
